@@ -158,6 +158,7 @@ def run(ctx):
         check_case(ctx, cs, {k[1]: v for k, v in defs.items() if k[0] == sk} if False else _Prefix(defs, sk))
     if len(muts) < 10:
         raise core.MachineryError("vacuous model: mutators seen %s" % muts)
+    check_independent_results(ctx)
     resc = core.run_tlc("MC_C12c", "MC_C12c_%s.cfg" % ctx.tier, timeout=600, workers=4)
     core.tlc_must_pass(resc, "MC_C12c")
     ctx.add_tlc(resc, "container histories: reads, element additions, in-place element edits, sampling changes")
@@ -256,6 +257,16 @@ def check_container(ctx, cs):
             fresh.sample_size = cs["samp"][0] if pdim == 1 else list(cs["samp"][:pdim])
             for i, v in enumerate(cs["ver"]):
                 fresh.add(mk(i, v))
+            # the number of sampled points per element is fixed by the container's sampling alone (taken from a two-element
+            # container with the same sampling): also when the container holds a single element
+            ref2 = Cont()
+            ref2.sample_size = cs["samp"][0] if pdim == 1 else list(cs["samp"][:pdim])
+            ref2.add(mk(0, 0))
+            ref2.add(mk(1, 0))
+            per = len(ref2.evalpts) // 2
+            if len(cont.evalpts) != per * len(cs["ver"]):
+                ctx.violate(site + ".evalpts", tg + ["view=evalpts", "points_per_element"], small, {"elements": len(cs["ver"]), "points": len(cont.evalpts), "expected_per_element": per})
+                continue
             for view in ("evalpts", "bbox"):
                 a = [list(p) for p in cont.evalpts] if view == "evalpts" else [list(x) for x in cont.bbox]
                 b = [list(p) for p in fresh.evalpts] if view == "evalpts" else [list(x) for x in fresh.bbox]
@@ -266,6 +277,39 @@ def check_container(ctx, cs):
         except Exception as e:
             ctx.violate(site, tg + ["raises"], small, {"exception": repr(e)[:300]})
     return True
+
+
+def check_independent_results(ctx):
+    """operations called without the in-place option return an object of their own even when the map is the identity (zero vector,
+    angle 0 or 360, factor 1): editing the result leaves the input alone"""
+    from geomdl import operations
+    from .c15 import SURFS
+    from ..cacheprobe import SHAPES
+    ctx.full = {"independent_results": True}
+    for cls, sh in SHAPES.items():
+        dim = len(sh["P"][0]) - (1 if sh["rat"] else 0)
+        calls = [("translate_zero", lambda o: operations.translate(o, [0.0] * dim)), ("scale_one", lambda o: operations.scale(o, 1.0)),
+                 ("rotate_0", lambda o: operations.rotate(o, 0, axis=2)), ("rotate_360", lambda o: operations.rotate(o, 360, axis=2)),
+                 ("rotate_minus_720", lambda o: operations.rotate(o, -720.0, axis=2))]
+        for name, fn in calls:
+            small = {"class": cls, "call": name}
+            tg = ["identity_map", name, cls]
+            ctx.count(("independent", cls, name), sample=small)
+            try:
+                o = build(sh)
+                o.sample_size = 3
+                before = copy.deepcopy(project(o))
+                views0 = [read_view(o, v) for v in ("ctrlpts", "evalpts", "bbox")]
+                r = fn(o)
+                if r is o:
+                    ctx.violate("operations." + name.split("_")[0], tg + ["same_object_returned"], small, {})
+                    continue
+                operations.translate(r, [5.0] * dim, inplace=True)
+                views1 = [read_view(o, v) for v in ("ctrlpts", "evalpts", "bbox")]
+                if project(o) != before or not close_seq(views1, views0, 1e-12):
+                    ctx.violate("operations." + name.split("_")[0], tg + ["input_follows_result"], small, {})
+            except Exception as e:
+                ctx.violate("operations." + name.split("_")[0], tg + ["raises"], small, {"exception": repr(e)[:200]})
 
 
 class _Prefix:
@@ -284,6 +328,8 @@ def replay(ctx, v):
     if "ver" in full:
         check_container(ctx, full)
         return
+    if "independent_results" in full:
+        return check_independent_results(ctx)
     if "cache_discipline" in full:
         from .. import cacheprobe
         cacheprobe.cache_discipline_check(ctx)
